@@ -213,17 +213,19 @@ def run():
                     note('plate-scale-misses-total', f'{cstock} {vstock} -> {ctgt} {vtgt}: holds {r.volume!r} uL')
             if PID == 'C05':
                 # a solvent CONTAINER at dispenser scale (nanolitres)
-                for vs, tq, c in ((f'{40 + v} nL', '20 nL', 5.0), (f'{2 + v} uL', '1 uL', 10.0)):
+                # (the composition of the solvent container changes from call to call: nothing may be remembered of an earlier one)
+                mix = (1, 0.25, 3)[v %% 3]
+                for vs, vs2, tq, c in ((f'{40 + v} nL', f'{(40 + v) * mix} nL', '20 nL', 5.0), (f'{2 + v} uL', f'{(2 + v) * mix} uL', '1 uL', 10.0)):
                     count += 1
-                    sv = Container('sv', initial_contents=[(water, vs), (dmso, vs)])
+                    sv = Container('sv', initial_contents=[(water, vs), (dmso, vs2)])
                     try:
                         _, r = Container.create_solution(salt, sv, 'y', concentration=f'{c} mM', total_quantity=tq)
                     except ValueError as e:
-                        note('solvent-container-refused', f'{vs} solvent, {c} mM, {tq}: {e}')
+                        note('solvent-container-refused', f'{vs} water + {vs2} dmso, {c} mM, {tq}: {e}')
                         continue
                     got = r.contents[salt] / r.volume * 1000
                     if not close(got, c, 1e-6, 0):
-                        note('solvent-container-misses-concentration', f'{vs} water+dmso each, {c} mM, {tq}: holds {got!r} mM')
+                        note('solvent-container-misses-concentration', f'{vs} water + {vs2} dmso, {c} mM, {tq}: holds {got!r} mM')
     return {'ok': True, 'count': count, 'failures': fails}
 '''
 
